@@ -653,6 +653,45 @@ const STRS: [&str; 12] = [
     "a", "aa", "ab", "b", "ba", "m", "z", "zz", "\u{e4}", "\u{e9}t\u{e9}", "\u{4e2d}", "A",
 ];
 
+fn chunk_sizes(cuts: &[usize], n: usize) -> Vec<usize> {
+    let mut out = vec![];
+    let mut prev = 0;
+    for &c in cuts.iter().chain(std::iter::once(&n)) {
+        out.push(c - prev);
+        prev = c;
+    }
+    out
+}
+
+fn distinct_sizes(mut cuts: Vec<usize>, n: usize) -> Vec<usize> {
+    for _ in 0..64 {
+        let sizes = chunk_sizes(&cuts, n);
+        let mut dup = None;
+        'o: for i in 0..sizes.len() {
+            for j in 0..i {
+                if sizes[i] == sizes[j] {
+                    dup = Some(i);
+                    break 'o;
+                }
+            }
+        }
+        let Some(i) = dup else { return cuts };
+        // grow chunk i by one at the expense of its right neighbour (or shrink the last one)
+        if i < cuts.len() {
+            if cuts[i] + 1 < *cuts.get(i + 1).unwrap_or(&n) {
+                cuts[i] += 1;
+                continue;
+            }
+        }
+        if i > 0 && cuts[i - 1] + 1 < *cuts.get(i).unwrap_or(&n) {
+            cuts[i - 1] += 1;
+            continue;
+        }
+        return cuts;
+    }
+    cuts
+}
+
 fn gen_corpus(rng: &mut Rng, quick: bool) -> Corpus {
     let mode = *rng.pick(&[Mode::Ties, Mode::BlockMax, Mode::Random, Mode::Random, Mode::Skew, Mode::Skew]);
     let size_class = rng.weighted(if quick { &[4, 5, 4, 3, 1] } else { &[3, 4, 3, 3, 2] });
@@ -664,7 +703,17 @@ fn gen_corpus(rng: &mut Rng, quick: bool) -> Corpus {
         _ => *rng.pick(&[4095usize, 4096, 4097, 4224, 5000, 6500, 8200, 8320]),
     };
     let nseg = if n < 2 { 1 } else { rng.urange(1, 8).min(n) };
-    let cuts = random_cuts(rng, n, nseg);
+    let cuts = if nseg >= 2 && rng.chance(1, 3) {
+        // segments of (nearly) equal size
+        let mut c: Vec<usize> = (1..nseg).map(|i| i * n / nseg).filter(|&c| c >= 1 && c < n).collect();
+        c.dedup();
+        c
+    } else {
+        random_cuts(rng, n, nseg)
+    };
+    // the searcher orders segments by descending max_doc and breaks ties by a random segment id:
+    // keep the chunk sizes distinct so that a case replays with the same segment ordinals
+    let cuts = distinct_sizes(cuts, n);
     let body_opt = if rng.chance(2, 3) {
         IndexRecordOption::WithFreqs
     } else {
@@ -1124,13 +1173,17 @@ fn check_exact(
             eprintln!("problem {p} K={k} O={o} expected head: {:?}", expected_all.iter().take(8).map(|(k, h)| (h.addr, k.js().to_string(), h.id)).collect::<Vec<_>>());
             eprintln!("   got: {:?}", got.iter().map(|(k, a)| (a, k.js().to_string())).collect::<Vec<_>>());
         }
-        let tie_extra = if merge_truncates && p == "tie-not-broken-by-ascending-address" {
-            "[merge-of-more-than-2(K+O)-unsorted-segment-results]"
+        // two defects of the unchanged tree get their own, specific signatures (see the
+        // attribution comments in `case`); everything else is keyed on collector family + problem
+        let sig = if p == "strictly-better-document-left-out" && !extra_sig.is_empty() {
+            format!("block-max-segment-local-avgdl:{p}[{}]", c.kind.family())
+        } else if p == "tie-not-broken-by-ascending-address" && merge_truncates {
+            format!("merge-unsorted-segment-results:{p}[{}]", c.kind.family())
         } else {
-            ""
+            format!("{}:{}", c.kind.family(), p)
         };
         rep.violation(
-            format!("{}:{}{}{}", c.kind.family(), p, extra_sig, tie_extra),
+            sig,
             json!({
                 "sort": c.kind.name(), "query": c.qdesc, "query_kind": c.qkind, "K": k, "O": o,
                 "matches": m, "first_difference_at": at,
@@ -1210,8 +1263,13 @@ fn check_approx(
         }
     }
     if let Some((p, at)) = problem {
+        let sig = if p == "strictly-better-document-left-out" && !extra_sig.is_empty() {
+            format!("block-max-segment-local-avgdl:{p}[{},float-sum]", c.kind.family())
+        } else {
+            format!("{}:{}[float-sum]", c.kind.family(), p)
+        };
         rep.violation(
-            format!("{}:{}[float-sum]{}", c.kind.family(), p, extra_sig),
+            sig,
             json!({
                 "sort": c.kind.name(), "query": c.qdesc, "query_kind": c.qkind, "K": k, "O": o,
                 "matches": m, "at": at, "clauses": c.n_leaves,
@@ -1305,19 +1363,6 @@ fn stale_block_max(
         .iter()
         .map(|x| tff(x.1, x.2, global_avg))
         .fold(0.0f32, f32::max);
-    if std::env::var("C06_DEBUG").is_ok() {
-        let me = list[pos];
-        eprintln!(
-            "stale_block_max: missing={missing:?} pos={pos} block={b} len={} local_avg={local_avg} global_avg={global_avg} stored={stored:?} stored_g={} max_g={max_global} me=(tf {}, id {}) me_g={} me_l={} stored_l={}",
-            list.len(),
-            tff(stored.0, stored.1, global_avg),
-            me.1,
-            me.2,
-            tff(me.1, me.2, global_avg),
-            tff(me.1, me.2, local_avg),
-            tff(stored.0, stored.1, local_avg),
-        );
-    }
     Some(tff(stored.0, stored.1, global_avg) < max_global)
 }
 
@@ -1632,7 +1677,7 @@ fn case(case: u64, rng: &mut Rng, rep: &mut Report, quick: bool) {
                 'attr: for (_, h) in expected_all[..hi].iter().filter(|(_, h)| !got_set.contains(&h.addr)).take(30) {
                     for (f, w) in pruning_terms.as_ref().unwrap() {
                         if stale_block_max(&searcher, &sch, *f, *w, h.addr) == Some(true) {
-                            extra = "[block-max-chosen-with-segment-local-avg-fieldnorm]".to_string();
+                            extra = "stale".to_string();
                             break 'attr;
                         }
                     }
